@@ -88,10 +88,11 @@ def _pt_ok(b):
 
 def _addpts(items):
     """ADD_POINTS: all items popped first, then validated, then summed"""
-    if any(len(x) != 32 for x in items):
-        return ent('addpts', items, err='TypeError')
-    if any(not E.is_valid_point(x) for x in items):
-        return ent('addpts', items, err='ValueError')
+    for x in items:          # validated one by one in the order they were taken: a wrong length is a TypeError, an invalid point a ValueError
+        if len(x) != 32:
+            return ent('addpts', items, err='TypeError')
+        if not E.is_valid_point(x):
+            return ent('addpts', items, err='ValueError')
     if not items:
         return ent('addpts', items, err='IndexError')
     acc = items[0]
